@@ -296,8 +296,16 @@ FUNCTIONS["CODE"] = wrap_ufunc(
 def _str(text):
     if isinstance(text, bool):
         return str(text).upper()
-    if isinstance(text, float) and text.is_integer():
-        return '%d' % text
+    if isinstance(text, float) and np.isfinite(text):
+        # Excel general format: at most 15 significant digits.
+        if text.is_integer() and abs(text) < 1e15:
+            return '%d' % text
+        res = '%.15G' % text
+        if 'E' in res:
+            exp = int(res.split('E')[1])
+            if -10 < exp < 0:
+                res = ('%.*f' % (14 - exp, text)).rstrip('0')
+        return res
     return str(text)
 
 
